@@ -75,7 +75,6 @@ CLIENT = "vgi_rpc/http/_client.py"
 EXCH = CLIENT + ":HttpStreamSession.exchange"
 CANCEL = CLIENT + ":HttpStreamSession.cancel"
 
-MSG_NO_RESPONSE = "Server disconnected without sending a response."
 MSG_MID_BODY = "peer closed connection without sending complete message body (incomplete chunked read)"
 ATT_MAX = 64.0
 NON_RETRYABLE_GRID = (200, 204, 400, 401, 404, 413, 415, 500, 501)
@@ -235,7 +234,16 @@ def _check_request_loop(ctx: Ctx, model: ExcModel) -> None:
             raise AnalysisError(f"C38: retry loop `{txt(the_loop)[:60]}` is not a `for … in range(…)` loop (cannot decide its trip count)")
         worst = None
         for n in (0, 1, 4):
-            args = [mini_eval(a, {f"{cfgp}.max_retries": n}) for a in the_loop.iter.args]
+            env_n: dict[str, object] = {f"{cfgp}.max_retries": n}
+            for _round in range(3):  # inline single-assignment locals (`max_attempts = config.max_retries + 1`)
+                for nm in {x for a in the_loop.iter.args for x in names_in(a)}:
+                    rhs = names_assigned(rr, nm)
+                    if nm not in env_n and nm != cfgp and len(rhs) == 1:
+                        try:
+                            env_n[nm] = mini_eval(rhs[0], env_n)
+                        except AnalysisError:
+                            pass
+            args = [mini_eval(a, env_n) for a in the_loop.iter.args]
             trips = len(range(*args))
             if trips > n + 1:
                 worst = (n, trips)
